@@ -88,6 +88,27 @@ def okOnlyIfDeviceOk (cmd : String) (code : Int) (apdus : List Bytes) (script : 
     | _, some (_, .data _) => code == 0
     | _, _ => false
 
+/-- is `r` the well-formed answer the device protocol prescribes for the query `a`?  (state,
+    parameters and reset queries: the operation — and for hashes the selector — is echoed and the
+    data has its fixed length) -/
+def answerWellFormed (a : Bytes) (r : Resp) : Bool :=
+  match r with
+  | .data b =>
+    let cmd := (a.getD 1 0).toNat
+    let op := (a.getD 2 0).toNat
+    if cmd == 0x20 then
+      b.getD 2 0 == a.getD 2 0 &&
+        (if op == 1 then b.getD 3 0 == a.getD 3 0 && b.length == 36
+         else if op == 3 then b.length == 6 else b.length ≥ 3)
+    else if cmd == 0x11 then b.length == 72
+    else if cmd == 0x21 then (b.getD 2 0).toNat == 2
+    else true
+  | _ => true
+
+def allWellFormed : List Bytes → List Resp → Bool
+  | a :: as, r :: rs => answerWellFormed a r && allWellFormed as rs
+  | _, _ => true
+
 def commandOf (j : Json) : String :=
   match j with
   | .obj kvs => match Json.lookup kvs "command" with | some (.str s) => s | _ => ""
@@ -110,6 +131,9 @@ def c04 (m : Mode) (req : Json) (script : List Resp) (commIssue0 : Bool) (o : Li
     (docTitle cmd == "" || (docCodes m cmd).contains code) &&
     -- (2) success codes only on the device's success
     (as.isEmpty || okOnlyIfDeviceOk cmd code as script) &&
+    -- (2') …and, for the query commands, only when every answer was the well-formed one
+    (code != 0 || !(cmd == "blockchainState" || cmd == "blockchainParameters" || cmd == "resetAdvanceBlockchain")
+      || allWellFormed as script) &&
     -- (3) the code the documents name for this cause
     (match firstStatus as script with
      | some (a, w) =>
